@@ -253,7 +253,7 @@ theorem generated_constants_sane : 0 < Generated.Eventing.maxNotifyErrors ∧ 0 
 
 /-! ## non-vacuity: a concrete history with a live, an unsubscribed, an expired and a failed subscription -/
 
-def cfg0 : Cfg := cfgOf .ref 3000 Generated.Eventing.maxNotifyErrors true
+def cfg0 : Cfg := cfgOf .ref 3000 1 true
 def opsA : List Op :=
   [.subscribe 0 (some 1) (some [[65], [66]]) true (some 500),   -- 0: stays alive, EndTo = 1
    .subscribe 2 none (some [[65]]) true (some 100),              -- 1: expires at 100
